@@ -8,8 +8,10 @@ C20 — the command line is fail-safe.
 * the decision table of the validation front end never yields anything but usage error, diagnostic
   or report (`C20_table`), and a value class that is let through to a report is one the kernel can
   handle (`C20_accepted_harmless`);
+* the clause around the two output files catches what `open` and the writers can raise
+  (`C20_output_caught`, `C20_output_guard`);
 * composition (`C20_trichotomy_partial`): one arbitrary numeric input, everything else valid,
-  arbitrary kernel behaviour within `kernelRaises`.  Partial: argument lists with several
+  arbitrary behaviour of the output stage within `outputRaises` and of the kernel within `kernelRaises`.  Partial: argument lists with several
   simultaneous malformed values are covered by the fuzzing correspondence, not by a theorem.
 -/
 import Pmn.Model.Guard
@@ -40,6 +42,21 @@ theorem C20_kernel_guard (k : Kernel) (h : ∀ e, k = .raises e → e ∈ kernel
     have := C20_kernel_caught e (h e rfl)
     simp [wrapKernel, this]
 
+/-- the clause around the output files catches every exception of the output stage -/
+theorem C20_output_caught : ∀ e ∈ outputRaises, caughtBy Pmn.Const.outputCaught e = true := by decide
+
+/-- **output guard**: whatever writing the output files does, `main` either carries on or ends with the
+diagnostic -/
+theorem C20_output_guard (o : Output) (h : ∀ e, o = .raises e → e ∈ outputRaises) :
+    wrapOutput Pmn.Const.outputCaught o = none ∨ wrapOutput Pmn.Const.outputCaught o = some .diag := by
+  cases o with
+  | notRequested => left; rfl
+  | written => left; rfl
+  | raises e =>
+    right
+    have := C20_output_caught e (h e rfl)
+    simp [wrapOutput, this]
+
 theorem mem_all_fields (f : Field) : f ∈ Field.all := by cases f <;> decide
 theorem mem_all_classes (c : NumClass) : c ∈ NumClass.all := by cases c <;> decide
 
@@ -55,21 +72,28 @@ theorem C20_accepted_harmless (f : Field) (c : NumClass) (h : expected f c = .re
   exact this f (mem_all_fields f) c (mem_all_classes c) h
 
 /-- `main` for one arbitrary numeric input: validation, then (if accepted) the guarded kernel -/
-def mainOutcome (f : Field) (c : NumClass) (k : Kernel) : Outcome :=
+def mainOutcome (f : Field) (c : NumClass) (o : Output) (k : Kernel) : Outcome :=
   match expected f c with
-  | .report => wrapKernel Pmn.Const.kernelCaught k
-  | o => o
+  | .report =>
+    match wrapOutput Pmn.Const.outputCaught o with
+    | some r => r
+    | none => wrapKernel Pmn.Const.kernelCaught k
+  | r => r
 
 /-- **trichotomy** (partial: one malformed numeric input at a time): the outcome is the usage
 error, the diagnostic or the report — never an escaped exception, never non-finite output -/
-theorem C20_trichotomy_partial (f : Field) (c : NumClass) (k : Kernel)
-    (h : ∀ e, k = .raises e → e ∈ kernelRaises) : Outcome.ok (mainOutcome f c k) = true := by
+theorem C20_trichotomy_partial (f : Field) (c : NumClass) (o : Output) (k : Kernel)
+    (ho : ∀ e, o = .raises e → e ∈ outputRaises)
+    (h : ∀ e, k = .raises e → e ∈ kernelRaises) : Outcome.ok (mainOutcome f c o k) = true := by
   unfold mainOutcome
   have ht := C20_table f c
   cases he : expected f c with
   | report =>
     simp only
-    rcases C20_kernel_guard k h with h1 | h1 <;> rw [h1] <;> rfl
+    rcases C20_output_guard o ho with h0 | h0
+    · rw [h0]; simp only
+      rcases C20_kernel_guard k h with h1 | h1 <;> rw [h1] <;> rfl
+    · rw [h0]; rfl
   | usage => rfl
   | diag => rfl
   | crash e => rw [he] at ht; simp [Outcome.ok] at ht
@@ -77,6 +101,13 @@ theorem C20_trichotomy_partial (f : Field) (c : NumClass) (k : Kernel)
 
 /-- the former `main` had no clause around the compute loop: a kernel exception escaped -/
 theorem C20_defect_witness : wrapKernel [] (.raises .ZeroDivisionError) = .crash .ZeroDivisionError := by
+  decide
+
+/-- the former `main` opened the output files outside any clause: an unwritable path escaped as a traceback,
+and so did the `NotImplementedError` of a load combination BASIC cannot express -/
+theorem C20_output_defect_witness :
+    wrapOutput [] (.raises .FileNotFoundError) = some (.crash .FileNotFoundError) ∧
+    wrapOutput ["OSError"] (.raises .NotImplementedError) = some (.crash .NotImplementedError) := by
   decide
 
 /-! non-vacuity: the table has accepting entries, and a kernel that raises is a legal instance -/
